@@ -176,13 +176,29 @@ fn rewrite(r: &mut Rng, forms: &mut Vec<SX>, files: &mut Vec<(String, String)>, 
         }
         5 => {
             // a top-level form -> included file
-            let cands: Vec<usize> = forms.iter().enumerate().filter(|(_, f)| matches!(f.head(), Some("defalias") | Some("defvar") | Some("defvirtualkeys") | Some("deflayer") | Some("deftemplate") | Some("defoverrides") | Some("defseq") | Some("defchords"))).map(|(i, _)| i).collect();
+            // (a form already wrapped in (platform ...) may move too, and a moved form may get the
+            // platform wrapper inside the file: the two rewrites compose)
+            let movable = |f: &SX| matches!(f.head(), Some("defalias") | Some("defvar") | Some("defvirtualkeys") | Some("deflayer") | Some("deftemplate") | Some("defoverrides") | Some("defseq") | Some("defchords"));
+            let cands: Vec<usize> = forms
+                .iter()
+                .enumerate()
+                .filter(|(_, f)| movable(f) || (f.head() == Some("platform") && f.list().and_then(|v| v.get(2)).map(|x| movable(x)).unwrap_or(false)))
+                .map(|(i, _)| i)
+                .collect();
             let fi = *r.pick_opt(&cands)?;
             let name = format!("zinc{n}.kbd");
-            let content = print_top(&[forms[fi].clone()]);
+            let mut moved = forms[fi].clone();
+            let mut kind = "include";
+            if moved.head() == Some("platform") {
+                kind = "include-of-platform";
+            } else if r.chance(350) {
+                moved = l(vec![a("platform"), l(vec![a("linux")]), moved]);
+                kind = "include-of-platform";
+            }
+            let content = print_top(&[moved]);
             files.push((name.clone(), content));
             forms[fi] = l(vec![a("include"), a(name)]);
-            Some("include")
+            Some(kind)
         }
         6 => {
             // wrap in (platform (linux) ...)
@@ -229,7 +245,7 @@ impl Prop for C16 {
         "C16"
     }
     fn rule_text(&self) -> String {
-        "case = configuration from the general action grammar + 1-4 random neutral rewrites of it (layer action -> defalias; number -> defvar; action list -> defvar; action -> deftemplate / template-expand / t!, with a parameter and if-equal / if-not-equal guards; top-level form -> include file through the file-provider seam; (platform (linux ...) form) wrapper; deflayer -> equivalent deflayermap) + one seeded history (gaps around the config's timeouts, repeats, virtual-key operations). Oracle: both texts are accepted or both rejected; the set of intercepted keys is equal; driven by the same history on fresh instances, one after the other, the output traces (tick, kind, key) are identical. non-trivial = both accepted, at least one rewrite applied and output produced; distinct = original x rewritten text hash.".into()
+        "case = configuration from the general action grammar + 1-4 random neutral rewrites of it (layer action -> defalias; number -> defvar; action list -> defvar; action -> deftemplate / template-expand / t!, with a parameter and if-equal / if-not-equal guards; top-level form -> include file through the file-provider seam; (platform (linux ...) form) wrapper, also inside an included file; deflayer -> equivalent deflayermap) + one seeded history (gaps around the config's timeouts, repeats, virtual-key operations). Oracle: both texts are accepted or both rejected; the set of intercepted keys is equal; driven by the same history on fresh instances, one after the other, the output traces (tick, kind, key) are identical. non-trivial = both accepted, at least one rewrite applied and output produced; distinct = original x rewritten text hash.".into()
     }
     fn runs(&self, tier: Tier) -> u64 {
         match tier {
